@@ -32,5 +32,11 @@ def run(report, tier):
                 bounds=f"{H.N_CTOR} packagings of {len(H.BASES)} base texts (split points x End variants x BOM flags x line ends)",
                 functions=FUNCS, timeout=t, concrete_body=True, sample={"files": 2, "end": "\tEnd # last line", "bom": "first file"}),
     ]
+    if thorough:
+        hs.append(Harness(name="edits-local", module="harness.c02", body="body_edits_local", sig="sel: int", n_sel=H.N_LOCAL, concrete_body=True,
+                          claim="one rewrite applied at a single statement (every statement position of every base text) on top of one rewrite "
+                                "applied everywhere gives the same snapshot as the plain layout",
+                          bounds=f"{H.N_LOCAL} combinations: 3 bases x 7 local rewrites x 16 positions x 9 global rewrites", functions=FUNCS,
+                          timeout=1200, sample={"local": "wrapped parameters at statement 6", "global": "CRLF"}))
     for h in hs:
         chrun.run_harness(report, h)
